@@ -1881,6 +1881,8 @@ class Evaluator:
                     tg = st.targets[0]
                 elif isinstance(st, ast.AnnAssign) and st.value is not None:
                     tg = st.target
+                elif isinstance(st, ast.Pass):
+                    continue
                 else:
                     ok = False
                     break
